@@ -58,6 +58,24 @@ def gen_histories(rng, d, n, prefix, with_foreign=True):
                     ops.append(('W', c3 * cs, 512, 3))
             if rng.random() < 0.3:
                 ops.append(('F',))
+        if images is None and rng.random() < 0.2:
+            # eviction write-back of a slice of a NEW table, on a host file whose free space holds stale bytes: the
+            # table must be durable (zeroed + slice) before the L1 entry / refcount-table entry that links it
+            cbx = rng.choice([10, 12])
+            l2e = (1 << cbx) // 8
+            g = hist.Geom(cbx, rng.choice([4, 6]), (rng.choice([3, 5]) * l2e) << cbx, 9, (9, 2 << 9), (9, rng.choice([2, 8]) << 9), punch=rng.choice([1, 1, 0]))
+            g.tail = (rng.choice([16, 40]) << cbx, rng.choice([0xEE, 0x80, 0x01]))
+            flat = hist.Flat(g.size)
+            cs = g.cs
+            t_new = rng.randrange(1, g.size // cs // l2e)
+            a, b2 = rng.sample(range(0, l2e // 64), 2) if l2e // 64 >= 2 else (0, 0)
+            ca, cb2 = a * 64 + rng.randrange(0, 64), b2 * 64 + rng.randrange(0, 64)
+            cn = t_new * l2e + rng.randrange(0, l2e)
+            ops = [('W', ca * cs, cs, 1), ('W', cb2 * cs, rng.choice([512, cs]), 2), ('F',), ('W', cn * cs, rng.choice([512, cs]), 3),
+                   ('R', ca * cs, 512), ('R', cb2 * cs, 512)]
+            if rng.random() < 0.5:
+                ops.append(('W', (t_new * l2e + rng.randrange(0, l2e)) * cs, 512, 4))
+            ops.append(('F',))
         # make some sync points: F immediately followed by S
         for _ in range(2):
             pos = rng.randrange(0, len(ops) + 1)
@@ -68,7 +86,8 @@ def gen_histories(rng, d, n, prefix, with_foreign=True):
         if images:
             text = 'case %s\n%s\nopt punch=%d\nX init\nopen %s\n%s\nend\n' % (cid, '\n'.join('image file ' + p for p in images), g.punch, g.params(), '\n'.join(lines[1:]))
         else:
-            text = 'case %s\nimage format %d %d %d 512\nopt punch=%d\nX init\nopen %s\n%s\nend\n' % (cid, g.size, g.cb, g.ro, g.punch, g.params(), '\n'.join(lines[1:]))
+            tl = getattr(g, 'tail', None)
+            text = 'case %s\nimage format %d %d %d 512\nopt %spunch=%d\nX init\nopen %s\n%s\nend\n' % (cid, g.size, g.cb, g.ro, ('tail=%d:%d ' % tl) if tl else '', g.punch, g.params(), '\n'.join(lines[1:]))
         cases.append({'cid': cid, 'g': g, 'ops': ops, 'text': text, 'flat0': flat, 'images': images, 'descs': descs})
     return cases
 
